@@ -131,7 +131,10 @@ def trig_blocks(text):
     try:
         with warnings.catch_warnings():
             warnings.simplefilter("ignore")
-            g.parse(data=text, format="trig")
+            try:
+                g.parse(data=text, format="trig")
+            except Exception as e:  # noqa  what a destination received is not TriG at all: equal to nothing but itself
+                return header, ("not TriG", type(e).__name__, text[:200])
     finally:
         logging.disable(logging.NOTSET)
     return header, rdfgraph.canon_quads(rdfgraph.quads_of(g))
@@ -156,7 +159,8 @@ def write_to(doc, fmt, dest, scratch):
         s = io.BytesIO()
         doc.serialize(s, format=fmt)
         return ("bytes", s.getvalue())
-    p = os.path.join(scratch, "écrit-%s.out" % fmt)
+    # a plain file name is used as it is: no URL syntax (%XX escapes, #, ?) is interpreted in it
+    p = os.path.join(scratch, "écrit %%41 100%%25 #1-%s.out" % fmt)
     # the destination already exists and is longer than anything written here: what it held must be gone afterwards
     with open(p, "wb") as f:
         f.write(b"PREVIOUS CONTENT OF THE DESTINATION\n" * 4000)
@@ -179,7 +183,7 @@ def offer(written, src, scratch):
     if src == "bin_stream":
         st = io.BytesIO(as_bytes)
         return dict(source=st), st, (st, len(as_bytes))
-    p = os.path.join(scratch, "lu-à.in")
+    p = os.path.join(scratch, "lu-à %42%20.in")
     with open(p, "wb") as f:
         f.write(as_bytes)
     return dict(source=p), p, None
